@@ -520,7 +520,12 @@ func harmless(with, without *stack.Snapshot) error {
 	return nil
 }
 
-var mutationNames = []string{"none", "file deleted", "file unparsable", "lines inserted above", "parameter added", "parameter removed", "parameter retyped", "function renamed", "file replaced", "file truncated"}
+var mutationNames = []string{"none", "file deleted", "file unparsable", "lines inserted above", "parameter added", "parameter removed", "parameter retyped", "function renamed", "file replaced", "file truncated",
+	// edits that still parse (go/parser checks syntax only) but declare something else than
+	// what was compiled
+	"receiver list emptied", "two receivers", "receiver dropped", "receiver added", "value receiver", "parameters unnamed", "type parameters added", "last parameter variadic", "parameters retyped exotically", "body moved into a closure", "parameters grouped"}
+
+var exoticTypes = []string{"struct{ a int }", "interface{ M() }", "[4]int", "*[]int", "func(int) (string, error)", "map[string][]int", "os.File", "[]os.FileMode", "<-chan int", "chan<- []int", "T[int]", "[]T[int, string]", "*U", "[...]int", "[2][]string", "(int)", "*(*int)", "struct{}", "any", "error", "uintptr", "complex128", "unsafe.Pointer", "[]*struct{ x, y int }"}
 
 func mutateSource(src string, kind int) (string, bool) {
 	switch kind {
@@ -542,6 +547,33 @@ func mutateSource(src string, kind int) (string, bool) {
 		return "package other\n\nfunc Unrelated(a, b, c, d, e, f, g, h interface{}) {\n}\n", true
 	case 9:
 		return src[:len(src)/3], true
+	case 10:
+		return regexp.MustCompile(`func \(t \*[TU]\) `).ReplaceAllString(src, "func () "), true
+	case 11:
+		return regexp.MustCompile(`func \(t \*([TU])\) `).ReplaceAllString(src, "func (t, u *${1}) "), true
+	case 12:
+		return regexp.MustCompile(`func \(t \*[TU]\) `).ReplaceAllString(src, "func "), true
+	case 13:
+		return regexp.MustCompile(`func (c\d+f\d+)\(`).ReplaceAllString(src, "func (t *T) ${1}("), true
+	case 14:
+		return regexp.MustCompile(`func \(t \*([TU])\) `).ReplaceAllString(src, "func (t ${1}) "), true
+	case 15:
+		return regexp.MustCompile(`([(,] ?)p\d+ `).ReplaceAllString(src, "${1}"), true
+	case 16:
+		return regexp.MustCompile(`func (\(t \*[TU]\) )?(c\d+f\d+|run\d+)\(`).ReplaceAllString(src, "func ${1}${2}[X any, Y comparable]("), true
+	case 17:
+		return regexp.MustCompile(`(p\d+) ([^,()]+)\) \{`).ReplaceAllString(src, "${1} ...${2}) {"), true
+	case 18:
+		n := 0
+		return regexp.MustCompile(`p(\d+) (int|uint8|bool|string|float64|int16|uint)([,)])`).ReplaceAllStringFunc(src, func(m string) string {
+			sm := regexp.MustCompile(`p(\d+) \w+([,)])`).FindStringSubmatch(m)
+			n++
+			return "p" + sm[1] + " " + exoticTypes[(n+len(src))%len(exoticTypes)] + sm[2]
+		}), true
+	case 19:
+		return regexp.MustCompile(`\) \{\n\t(defer )?([^\n]+)\n\}`).ReplaceAllString(src, ") {\n\tfunc(q0 string, q1 []int) { ${2} }(\"\", nil)\n}"), true
+	case 20:
+		return regexp.MustCompile(`p(\d+) ([^,()]+), p(\d+) ([^,()]+)([,)])`).ReplaceAllString(src, "p${1}, p${3} ${4}${5}"), true
 	}
 	return src, true
 }
@@ -567,14 +599,7 @@ func c19Check(p c19Prog, dir string) error {
 	}
 	st := statsFor("C19")
 	if p.Mutate != 0 {
-		for name, orig := range p.sources() {
-			src, keep := mutateSource(orig, p.Mutate)
-			if keep {
-				_ = os.WriteFile(filepath.Join(dir, name), []byte(src), 0o644)
-			} else {
-				_ = os.Remove(filepath.Join(dir, name))
-			}
-		}
+		return c19Mismatch(&p, dir, crashes, p.Mutate)
 	}
 	for ci, cr := range crashes {
 		for _, naming := range []bool{false, true} {
@@ -586,11 +611,6 @@ func c19Check(p c19Prog, dir string) error {
 			}
 			if err := harmless(with, without); err != nil {
 				return fmt.Errorf("chain %d (sources: %s): %v", c, mutationNames[p.Mutate], err)
-			}
-			if p.Mutate != 0 {
-				st.count(1, 1)
-				st.class("mismatching_sources_"+strings.ReplaceAll(mutationNames[p.Mutate], " ", "_"), 1)
-				continue
 			}
 			for f, fn := range p.Chains[c].Funcs {
 				name := p.name(c, f)
@@ -656,6 +676,48 @@ func c19Check(p c19Prog, dir string) error {
 				st.class("parameters_checked", int64(checked))
 			}
 		}
+	}
+	// The same crashes against every kind of mismatching source tree (the build is the
+	// expensive part of a case; a scan is not).
+	for kind := 1; kind < len(mutationNames); kind++ {
+		if err := c19Mismatch(&p, dir, crashes, kind); err != nil {
+			return err
+		}
+	}
+	return nil
+}
+
+// c19Mismatch rewrites the sources in dir by one mutation kind and requires that analysing
+// them changes nothing but the augmented text - in particular that it does not crash.
+func c19Mismatch(p *c19Prog, dir string, crashes []crash, kind int) error {
+	st := statsFor("C19")
+	for name, orig := range p.sources() {
+		src, keep := mutateSource(orig, kind)
+		if keep {
+			_ = os.WriteFile(filepath.Join(dir, name), []byte(src), 0o644)
+		} else {
+			_ = os.Remove(filepath.Join(dir, name))
+		}
+	}
+	for c, cr := range crashes {
+		// one scan pair per crash and kind; the naming option alternates
+		naming := (c+kind)%2 == 0
+		var with, without *stack.Snapshot
+		if err := guard(func() error {
+			with, _, _ = stack.ScanSnapshot(bytes.NewReader(cr.stderr), io.Discard, c19OptsNaming(true, naming))
+			without, _, _ = stack.ScanSnapshot(bytes.NewReader(cr.stderr), io.Discard, c19OptsNaming(false, naming))
+			return nil
+		}); err != nil {
+			return fmt.Errorf("chain %d (sources: %s): %v\ntraceback: %s", c, mutationNames[kind], err, cr.stderr)
+		}
+		if with == nil || without == nil {
+			return fmt.Errorf("chain %d (sources: %s): real traceback does not parse", c, mutationNames[kind])
+		}
+		if err := harmless(with, without); err != nil {
+			return fmt.Errorf("chain %d (sources: %s): %v", c, mutationNames[kind], err)
+		}
+		st.count(1, 1)
+		st.class("mismatching_sources_"+strings.ReplaceAll(mutationNames[kind], " ", "_"), 1)
 	}
 	return nil
 }
